@@ -35,6 +35,9 @@ def gen_cases(tier, seed):
                       'seed': rng.randrange(1 << 30)})
     for i in range(6 if tier == 'quick' else 80):
         cases.append({'kind': 'stop', 'moment': ['before', 'blocked-get', 'blocked-put'][i % 3], 'n': rng.choice([1, 3]), 'seed': rng.randrange(1 << 30)})
+    # consumers race for fewer items than there are consumers, the losers stay blocked, then the stop is requested
+    for i in range(6 if tier == 'quick' else 100):
+        cases.append({'kind': 'stop', 'moment': 'race', 'n': rng.choice([2, 3, 4]), 'items': rng.choice([1, 1, 2]), 'rounds': 5 if tier == 'quick' else 12, 'seed': rng.randrange(1 << 30)})
     for i in range(4 if tier == 'quick' else 60):
         cases.append({'kind': 'processes', 'm': rng.choice([1, 2]), 'n': rng.choice([2, 3]), 'items': rng.choice([5, 40]), 'rounds': 2, 'seed': rng.randrange(1 << 30)})
     return cases
@@ -155,10 +158,72 @@ def run_threads(case):
                        'per_consumer_round0': [len(x) for x in received[0]], 'qsize_after_renew': renew_info, 'injections': st['injections']}}
 
 
+def run_stop_race(case):
+    import mpservice.queue as MQ
+    from mpservice._common import StopRequested
+
+    viol = []
+    obs = {'stop_runs': 0, 'stop_raised': 0, 'max_stop_latency_ms': 0, 'race_rounds': 0}
+    rng = random.Random(case['seed'])
+    fz = schedfuzz.SchedFuzz(seed=case['seed'], p=0.3, delays=(0, 0.0001, 0.0005, 0.002))
+    fz.add(MQ.ResponsiveQueue.get, MQ.ResponsiveQueue.put, MQ.ResponsiveQueue._get_put, MQ.IterableQueue.__next__)
+    with fz:
+        for rd in range(case['rounds']):
+            ev = threading.Event()
+            q = MQ.IterableQueue(_queue.Queue(), num_suppliers=1, to_stop=ev)
+            k = min(case['items'], case['n'] - 1)
+            for i in range(k):
+                q.put(('it', rd, i))
+            res = {}
+            go = threading.Barrier(case['n'])
+
+            def consumer(i):
+                try:
+                    go.wait(5)
+                    res[i] = ('item', next(q))
+                except StopRequested:
+                    res[i] = ('stop', time.monotonic())
+                except BaseException as e:  # noqa: BLE001
+                    res[i] = ('other', repr(e))
+
+            ths = [threading.Thread(target=consumer, args=(i,), name=f'racer-{i}', daemon=True) for i in range(case['n'])]
+            for t in ths:
+                t.start()
+            time.sleep(0.02 + rng.random() * 0.02)
+            t_set = time.monotonic()
+            ev.set()
+            for t in ths:
+                t.join(max(0.0, t_set + 10 - time.monotonic()))
+            alive = [t.name for t in ths if t.is_alive()]
+            obs['race_rounds'] += 1
+            obs['stop_runs'] += 1
+            if alive:
+                stable, snap = watch.stable_stacks()
+                if stable and [t for t in ths if t.is_alive()]:
+                    viol.append({'mech': 'iterq/stop-request-ignored/race', 'msg': f'{alive} still blocked 10 s after the stop event: they lost the race for the last item and no longer notice the stop request '
+                                 f'({case["n"]} consumers, {k} items)', 'stacks': snap})
+                    return {'violations': viol, 'obs': obs, 'fuzz': fz.stats(), 'exit_after': True, 'nontrivial': True, 'sig': repr(case)}
+            got = sorted(r[1] for r in res.values() if r[0] == 'item')
+            if got != [('it', rd, i) for i in range(k)]:
+                viol.append({'mech': 'iterq/items-lost', 'msg': f'race round: consumers received {got}, {k} items were put'})
+            for r in res.values():
+                if r[0] == 'stop':
+                    obs['stop_raised'] += 1
+                    obs['max_stop_latency_ms'] = max(obs['max_stop_latency_ms'], int((r[1] - t_set) * 1000))
+                elif r[0] == 'other':
+                    viol.append({'mech': 'iterq/stop-request-ignored/race', 'msg': f'blocked consumer ended with {r[1]}'})
+            if viol:
+                break
+    return {'violations': viol[:3], 'obs': obs, 'fuzz': fz.stats(), 'nontrivial': True, 'sig': repr(('race', case['n'], case['seed'])),
+            'sample': {'kind': 'stop-race', 'consumers': case['n'], 'items': case['items'], 'rounds': obs['race_rounds'], 'stop_raised': obs['stop_raised']}}
+
+
 def run_stop(case):
     import mpservice.queue as MQ
     from mpservice._common import StopRequested
 
+    if case['moment'] == 'race':
+        return run_stop_race(case)
     viol = []
     obs = {'stop_runs': 1, 'stop_raised': 0, 'max_stop_latency_ms': 0}
     ev = threading.Event()
